@@ -29,7 +29,9 @@ def find (k : Key) : List (Key × Nat) → Option Nat
   | [] => none
   | (k', d) :: rest => if k' = k then some d else find k rest
 
-/-- `Scope::addDeclaration`: an existing entry for the key is kept -/
+/-- `Scope::addDeclaration`: an existing entry for the key is kept (since the repair of forward-declared tags, a tag declaration WITH
+members replaces an earlier one of the same tag without: the model has no member lists, and the generated programs never declare
+one key twice in a scope - duplicate keys are outside the model) -/
 def addFirstWins (ds : List (Key × Nat)) (k : Key) (d : Nat) : List (Key × Nat) :=
   match find k ds with
   | some _ => ds
